@@ -67,7 +67,7 @@ def reuse_cache_roles(model: Model) -> dict:
     out["affine_between"] = [_canon_get(resolved_text(tcfg, tcfg.node_for(ab[0]), a, tfi)) for a in ab[0].args] if len(ab) == 1 else None
     rets = [x for x in walk_body(tfi) if isinstance(x, ast.Return) and isinstance(x.value, ast.Call) and callee_tail(x.value) == "ReuseResult"]
     out["result_name"] = _canon_get(resolved_text(tcfg, tcfg.node_for(rets[0]), rets[0].value.args[0], tfi)) if len(rets) == 1 and rets[0].value.args else None
-    nones = [x for x in walk_body(tfi) if isinstance(x, ast.Return) and norm(x.value) == "None"]
+    nones = [x for x in walk_body(tfi) if isinstance(x, ast.Return) and (x.value is None or norm(x.value) == "None")]
     reasons = []
     for x in nones:
         f = guard_facts(tcfg, tcfg.node_for(x), skip_abort_guards=True)
@@ -84,6 +84,15 @@ def reuse_cache_roles(model: Model) -> dict:
 def r06a(model: Model, rr: RuleResult):
     report(model, rr, [("write_font", "_migrate_paths_to_ufo_glyphs._update_paint_glyph"), ("svg", "_add_glyph"), ("svg", "_apply_paint"),
                        ("svg", "_apply_gradient_paint")], WHY)
+
+
+def _overflow_flag(wcfg, facts):
+    """The flag tested on the way to the reuse return, found by role: a plain name one of whose definitions tests fixed_safe -> (name, value it has there)."""
+    flag = None
+    for name, val in flag_values(facts).items():
+        if any(d.value is not None and "fixed_safe" in norm(d.value) for d in wcfg.all_defs(name)):
+            flag = (name, val)
+    return flag
 
 
 def r06b_impl(model: Model, rr: RuleResult):
@@ -130,17 +139,40 @@ def r06b_impl(model: Model, rr: RuleResult):
         raise AnalysisError("_update_paint_glyph: reuse return not found")
     rn = wcfg.node_for(rr_ret[0])
     facts = guard_facts(wcfg, rn)
-    if flag_values(facts).get("overflows") is False:
-        rr.ok("reuse wrapper is returned only when `overflows` is false")
-    else:
-        rr.bad(wf, rr_ret[0], "the reuse wrapper is returned although the counter-transform of the gradient may overflow", construct="reuse return not guarded by `not overflows`")
-    odefs = wcfg.all_defs("overflows")
-    comp = [d for d in odefs if d.value is not None and "fixed_safe" in norm(d.value)]
+    # the flag that guards the reuse return is found by role: a name tested on the way to the return, one of whose definitions tests fixed_safe
     at_calls = [c for c in calls_in(wf) if callee_tail(c) == "apply_transform" and "child_paint" in norm(c.func)]
-    if len(comp) == 1 and at_calls and isinstance(comp[0].value, ast.UnaryOp) and norm(comp[0].value.operand) == f"fixed_safe(*{norm(at_calls[0].args[0])})":
-        rr.ok("overflows = not fixed_safe(*transform) for the very transform applied to the gradient")
+    applied = norm(at_calls[0].args[0]) if at_calls and at_calls[0].args else None
+    from ..guards import _atoms
+    flag = _overflow_flag(wcfg, facts)
+    direct = [c for c in fact_calls(facts, "fixed_safe") if applied and norm(c.args[0]) == f"*{applied}"] if facts else []
+    if flag is not None:
+        name, val = flag
+        covered, wrong = 0, []
+        for d in wcfg.reaching(rn, name):
+            if d.value is None:
+                wrong.append(d)
+            elif isinstance(d.value, ast.Constant):
+                if bool(d.value.value) != val:
+                    continue  # this definition never reaches the return: the test on the flag excludes it
+            else:
+                at = [(e, pol) for e, pol in _atoms(d.value, val, wcfg, d.node) if isinstance(e, ast.Call) and callee_tail(e) == "fixed_safe"]
+                if any(pol and applied and norm(e.args[0]) == f"*{applied}" for e, pol in at):
+                    covered += 1
+                else:
+                    wrong.append(d)
+        if covered and not wrong:
+            rr.ok(f"reuse wrapper is returned only when `{name}` is {val}")
+            rr.ok(f"`{name}` is {val} only when fixed_safe(*{applied}) holds for the very transform applied to the gradient")
+        elif wrong and covered == 0 and any(d.value is not None and "fixed_safe" in norm(d.value) for d in wrong):
+            rr.bad(wf, wf.node, f"`{name}` does not test the transform that is applied to the gradient", construct="_update_paint_glyph: overflows definition")
+            rr.ok("reuse wrapper return is guarded by a flag")
+        else:
+            rr.bad(wf, rr_ret[0], "the reuse wrapper is returned although the counter-transform of the gradient may overflow", construct="reuse return not guarded by `not overflows`")
+    elif direct:
+        rr.ok("reuse wrapper is returned only under fixed_safe of the transform applied to the gradient")
+        rr.ok("(no flag variable)")
     else:
-        rr.bad(wf, wf.node, "`overflows` does not test the transform that is applied to the gradient", construct="_update_paint_glyph: overflows definition")
+        rr.bad_shape(wf, rr_ret[0], "the reuse wrapper is returned although the counter-transform of the gradient may overflow", construct="reuse return not guarded by `not overflows`")
     # OverflowError fallback wraps with the same transform
     handlers = [h for n in walk_body(wf) if isinstance(n, ast.Try) for h in n.handlers]
     good = False
@@ -157,7 +189,8 @@ def r06b_impl(model: Model, rr: RuleResult):
     # when reuse is abandoned the shape is emitted un-reused
     cg = find_calls(wf, "_create_glyph")
     if len(cg) == 1:
-        tests = [st for st in walk_body(wf) if isinstance(st, ast.If) and "overflows" in norm(st.test) and any(x is rr_ret[0] for x in ast.walk(st))]
+        fname = flag[0] if flag is not None else "fixed_safe"
+        tests = [st for st in walk_body(wf) if isinstance(st, ast.If) and fname in norm(st.test) and any(x is rr_ret[0] for x in ast.walk(st))]
         if tests and wcfg.path_exists(wcfg.node_for(tests[0]), wcfg.node_for(cg[0]), avoid={rn}):
             rr.ok("abandoned reuse falls through to _create_glyph (shape emitted un-reused)")
         else:
@@ -310,7 +343,8 @@ def r19b(model: Model, rr: RuleResult):
     if len(rets) != 1:
         raise AnalysisError("_update_paint_glyph: reuse return not found")
     rawf = guard_facts(cfg, cfg.node_for(rets[0]), skip_abort_guards=True)
-    facts = [(norm(e), pol) for e, pol in rawf if not (flag_values([(e, pol)]).get("overflows") is False)]
+    flag = _overflow_flag(cfg, rawf)
+    facts = [(norm(e), pol) for e, pol in rawf if not (flag is not None and flag_values([(e, pol)]).get(flag[0]) is flag[1])]
     allowed = {("reuse_result is not None", True), ("reuse_result is None", False), ("overflows", False),
                ("paint.format != PaintGlyph.format", False), ("paint.format == PaintGlyph.format", True),
                ("glyph_cache.is_known_glyph(paint.glyph)", False)}
@@ -330,7 +364,7 @@ def r19b(model: Model, rr: RuleResult):
     # GlyphReuseCache.try_reuse: returns None only for: disabled, unknown normal form, no affine, overflow
     tfi = model.func("glyph_reuse", "GlyphReuseCache.try_reuse")
     tcfg = cfg_of(tfi)
-    nones = [st for st in walk_body(tfi) if isinstance(st, ast.Return) and norm(st.value) == "None"]
+    nones = [st for st in walk_body(tfi) if isinstance(st, ast.Return) and (st.value is None or norm(st.value) == "None")]
     reasons = []
     for st in nones:
         f = [(norm(e), pol) for e, pol in guard_facts(tcfg, tcfg.node_for(st), skip_abort_guards=True)]
@@ -411,7 +445,8 @@ def r19b(model: Model, rr: RuleResult):
     wcfg2 = cfg_of(wfu)
     trc = find_calls(wfu, "try_reuse")
     uses = [n for n in walk_body(wfu) if isinstance(n, ast.Name) and n.id == "reuse_result" and isinstance(n.ctx, ast.Load)]
-    if trc and uses and all(len(wcfg2.reaching(wcfg2.node_for(u), "reuse_result")) == 1 for u in uses):
+    if trc and uses and all(len(ds) == 1 and isinstance(ds[0].value, ast.Call) and callee_tail(ds[0].value) == "try_reuse"
+                            for ds in (wcfg2.reaching(wcfg2.node_for(u), "reuse_result") for u in uses)):
         rr.ok("COLR: reuse_result is bound once, by try_reuse")
     else:
         rr.bad(wfu, wfu.node, "reuse_result is redefined after try_reuse in the COLR path", construct="_update_paint_glyph: reuse_result redefined")
@@ -462,8 +497,24 @@ def r06e(model: Model, rr: RuleResult):
                     rr.ok(f"{mname}.{fi.qualname}: {short(c)} keys on the paint and the residual transform")
     if n < 1:
         raise AnalysisError("no GradientReuseKey(...) construction found")
-    dfn = [c for c in calls_in(model.func("svg", "_apply_gradient_paint")) if callee_tail(c) == "_define_gradient"]
-    if dfn and all(len(c.args) >= 3 and norm(c.args[2]) == "transform" for c in dfn):
+    gfi = model.func("svg", "_apply_gradient_paint")
+    dfn = [c for c in calls_in(gfi) if callee_tail(c) == "_define_gradient"]
+    # names used as key of the gradient cache: gradient_ids.get(K) / gradient_ids[K]
+    keyvars = set()
+    for x in walk_body(gfi):
+        if isinstance(x, ast.Call) and callee_tail(x) == "get" and "gradient_ids" in norm(x.func) and x.args and isinstance(x.args[0], ast.Name):
+            keyvars.add(x.args[0].id)
+        if isinstance(x, ast.Subscript) and "gradient_ids" in norm(x.value) and isinstance(x.slice, ast.Name):
+            keyvars.add(x.slice.id)
+
+    def is_key_transform(c):
+        if len(c.args) < 3:
+            return False
+        t = c.args[2]
+        if isinstance(t, ast.Name) and t.id == "transform":
+            return True
+        return isinstance(t, ast.Attribute) and t.attr == "transform" and isinstance(t.value, ast.Name) and t.value.id in keyvars
+    if dfn and all(is_key_transform(c) for c in dfn):
         rr.ok("the gradient is defined with the same transform that is in the key")
     else:
-        rr.bad_shape(model.func("svg", "_apply_gradient_paint"), dfn[0] if dfn else None, "the gradient is defined with a transform other than the one in the reuse key", construct="_apply_gradient_paint: _define_gradient transform")
+        rr.bad_shape(gfi, dfn[0] if dfn else None, "the gradient is defined with a transform other than the one in the reuse key", construct="_apply_gradient_paint: _define_gradient transform")
